@@ -78,3 +78,24 @@ pub(crate) fn sym_static<const N: usize>() -> (&'static [u8], bytes::Bytes) {
     let s: &'static [u8] = Box::leak(Box::new(buf));
     (s, bytes::Bytes::from_static(s))
 }
+
+/// An `Arc<T>` whose control block lives in the caller's stack frame (std's `ArcInner` is `repr(C)`:
+/// strong, weak, data).  Heap objects are not constant-folded by symex; stack objects are tracked field
+/// by field, which keeps configuration values concrete.  The count starts high and the owner is
+/// `mem::forget`-ed, so the block is never freed.
+#[repr(C)]
+pub(crate) struct StackArc<T> {
+    strong: std::sync::atomic::AtomicUsize,
+    weak: std::sync::atomic::AtomicUsize,
+    pub data: T,
+}
+
+impl<T> StackArc<T> {
+    pub(crate) fn new(data: T) -> Self {
+        Self { strong: std::sync::atomic::AtomicUsize::new(1 << 20), weak: std::sync::atomic::AtomicUsize::new(1), data }
+    }
+    /// Safety: `self` must outlive every clone of the returned `Arc` and must not move afterwards.
+    pub(crate) unsafe fn arc(&self) -> std::sync::Arc<T> {
+        std::sync::Arc::from_raw(&self.data as *const T)
+    }
+}
